@@ -222,10 +222,37 @@ func (g *genCtx) list(f *FieldInfo) []*Entry {
 			}
 		}
 	}
+	// lists with two or more plain string keys: now and then two entries whose key tuples read the same when
+	// the values are joined by a separator ("a b","c" / "a","b c"): anything that identifies an entry by a
+	// joined key string confuses them
+	var ambiguous [][]Val
+	if len(f.KeyFields) >= 2 && !g.o.PlainStrings && (f.Max == 0 || f.Max >= 2) {
+		plain := func(kf *FieldInfo) bool {
+			lt := kf.Type
+			return lt != nil && lt.VKind() == KStr && len(lt.Patterns) == 0 && len(lt.Length) == 0 && len(lt.Members) == 0 && lt.Leafref == ""
+		}
+		if plain(f.KeyFields[0]) && plain(f.KeyFields[1]) && rapid.IntRange(0, 5).Draw(g.t, f.Name+".ambiguous") == 0 {
+			sep := rapid.SampledFrom([]string{" ", ",", "/", "_", ":"}).Draw(g.t, f.Name+".sep")
+			k1, k2 := make([]Val, len(f.KeyFields)), make([]Val, len(f.KeyFields))
+			for i, kf := range f.KeyFields {
+				k1[i] = g.fvalue(kf, f.Name+"."+kf.Name+".amb")
+				k2[i] = k1[i]
+			}
+			k1[0], k1[1] = Val{K: KStr, S: "zone" + sep + "a"}, Val{K: KStr, S: "b"}
+			k2[0], k2[1] = Val{K: KStr, S: "zone"}, Val{K: KStr, S: "a" + sep + "b"}
+			ambiguous = [][]Val{k1, k2}
+			if cnt < 2 {
+				cnt = 2
+			}
+		}
+	}
 	for tries := 0; len(out) < cnt && tries < cnt*8; tries++ {
 		key := make([]Val, len(f.KeyFields))
 		for i, kf := range f.KeyFields {
 			key[i] = g.fvalue(kf, f.Name+"."+kf.Name)
+		}
+		if len(ambiguous) > 0 {
+			key, ambiguous = ambiguous[0], ambiguous[1:]
 		}
 		if numberish {
 			key[0] = Val{K: KStr, S: rapid.SampledFrom([]string{"9", "10", "1a", "2", "11", "1", "a1", "01", "100", "9a"}).Draw(g.t, f.Name+".nk")}
